@@ -88,7 +88,7 @@ class Timer:
 
         # Timer has started and hasn't been stopped
         if self._end_time is None:
-            return self.timeout - (time.time() - self._start_time)
+            return self.timeout - (time.monotonic() - self._start_time)
 
         # Time has been start and been stopped
         return self.timeout - (self._end_time - self._start_time)
@@ -99,12 +99,12 @@ class Timer:
 
     def start(self) -> None:
         """Resets and starts the timer running."""
-        self._start_time = time.time()
+        self._start_time = time.monotonic()
         self._end_time = None
 
     def stop(self) -> None:
         """Stops the timer and resets it."""
-        self._end_time = time.time()
+        self._end_time = time.monotonic()
 
     @property
     def timeout(self) -> float | None:
